@@ -59,7 +59,24 @@ pub fn base32_decode2(xs: &mut Xstate, alphabet: base32::Alphabet) -> Xresult1<X
     }
     let res = base32::decode(alphabet, &s)
         .ok_or_else(|| Xerr::ErrorMsg(xeh_xstr!("base32 decode error")))?;
-   Ok(Xbitstr::from(res))
+    // the library folds case and drops spare bits of the last digit: a text is valid
+    // only if it is the one the encoder writes for these bytes (for Crockford: after
+    // the substitutions that alphabet defines, lower case and O / I / L)
+    let canon: String = match alphabet {
+        base32::Alphabet::Crockford => s
+            .chars()
+            .map(|c| match c.to_ascii_uppercase() {
+                'O' => '0',
+                'I' | 'L' => '1',
+                x => x,
+            })
+            .collect(),
+        _ => s.to_string(),
+    };
+    if base32::encode(alphabet, &res) != canon {
+        return Err(Xerr::ErrorMsg(xeh_xstr!("base32 decode error")));
+    }
+    Ok(Xbitstr::from(res))
 }
 
 pub fn base32_decode(xs: &mut Xstate) -> Xresult {
